@@ -92,8 +92,8 @@ def widenshift(ctx, rep):
                     if x.get("k") in ("var", "field") and x.get("n"):
                         nm = x["n"]
                         break
-                wide_shifts.setdefault(("%s | %s" % (fn.base.replace("draco::", ""), nm or "expression"), is_ctl),
-                                       (fn, ev))
+                wide_shifts.setdefault((fn.base.replace("draco::", "").replace("verif_control::", ""), is_ctl), []).append(
+                    (fn, ev, nm or "expression", n.get("loc") or ev.get("loc", "")))
             for n in walk(tree):
                 if n.get("k") in ("icast", "cast") and (n.get("iw") or 0) >= 64 and "v" not in n:
                     e = n.get("e")
@@ -118,14 +118,49 @@ def widenshift(ctx, rep):
         "(they drop whatever is pushed past bit 31) are a closed, reviewed set; a new one (gathering `data << bit_shift` "
         "in a 32-bit temporary) loses the top bits of wide fields")
     lf = False
-    for (key, is_ctl), (fn, ev) in sorted(wide_shifts.items(), key=lambda x: x[0][0]):
-        ok = key in ledger
+    # a function that is not listed but is a private helper (same class / file-local) of listed functions only
+    # carries a reviewed shift that was moved: it is counted with its callers
+    rev = {}
+    for k_, outs in F.callgraph().items():
+        for o in outs:
+            rev.setdefault(o, set()).add(k_)
+
+    def owner(fn, depth=0):
+        name = fn.base.replace("draco::", "")
+        if name in ledger or depth > 2:
+            return name if name in ledger else None
+        private = fn.is_lambda or "(anonymous namespace)" in fn.name or fn.cls
+        cs = [F.fns[c] for c in rev.get(fn.key, ()) if c in F.fns]
+        if not private or not cs:
+            return None
+        owners = set()
+        for c in cs:
+            if fn.cls and c.cls and strip_targs(c.cls) != strip_targs(fn.cls) and not (
+                    fn.is_lambda or "(anonymous namespace)" in fn.name):
+                return None
+            o = owner(c, depth + 1)
+            if o is None:
+                return None
+            owners.add(o)
+        return sorted(owners)[0] if len(owners) == 1 else None
+    groups = {}
+    for (name, is_ctl), items in wide_shifts.items():
+        sites = {(it[3], it[2]) for it in items}        # template instantiations share sites
+        fn = items[0][0]
+        own = name if (name in ledger or is_ctl) else owner(fn)
+        groups.setdefault((own or name, is_ctl, own is not None), []).append((fn, items[0][1], sites))
+    for (gname, is_ctl, known), members in sorted(groups.items(), key=lambda x: str(x[0])):
+        total = sum(len(m[2]) for m in members)
+        allowed = ledger.get(gname, {}).get("count", 0) if known and not is_ctl else 0
+        ok = total <= allowed
         lf |= is_ctl and not ok
-        rep.add(Obligation("SHIFT-LEDGER", fn.base, "full-width left shift of " + key.split(" | ")[1],
+        fn, ev = members[0][0], members[0][1]
+        rep.add(Obligation("SHIFT-LEDGER", fn.base, "full-width run-time left shifts (%d)" % total,
                            fn.site(ev.get("loc", "")), DISCHARGED if ok else VIOLATION, control=is_ctl, trivial=ok,
-                           detail=ledger.get(key, "") if ok else
-                           "`%s`: a full-width run-time value is shifted left in 32 bits and the shift is not in the "
-                           "reviewed ledger: bits pushed past bit 31 are lost" % (ev.get("src") or "")[:90]))
+                           detail=ledger.get(gname, {}).get("why", "") if ok else
+                           "`%s`: %d left shift(s) of a full-width run-time value in 32 bits here (with private helpers), "
+                           "%d reviewed in the ledger: bits pushed past bit 31 are lost" % (
+                               (ev.get("src") or "")[:90], total, allowed)))
     rep.control("SHIFT-LEDGER", "c17_wideshift_bad", lf, "an unlisted full-width shift must be reported")
     rep.floor("run-time left shifts in the bitstream primitives", n_sh, 5)
     rep.control("WIDENSHIFT", "c17_widenshift_bad", fired, "a widened 32-bit shift must be reported")
